@@ -2,13 +2,18 @@ module verif
 
 go 1.23
 
-require github.com/openacid/low v0.0.0
+require (
+	github.com/golang/protobuf v1.4.2
+	github.com/openacid/low v0.0.0
+)
 
 require (
 	github.com/davecgh/go-spew v1.1.1 // indirect
+	github.com/openacid/errors v0.8.1 // indirect
 	github.com/openacid/must v0.1.3 // indirect
 	github.com/pmezard/go-difflib v1.0.0 // indirect
 	github.com/stretchr/testify v1.8.1 // indirect
+	google.golang.org/protobuf v1.23.0 // indirect
 	gopkg.in/yaml.v3 v3.0.1 // indirect
 )
 
